@@ -1239,8 +1239,10 @@ func (f *frame) applyContract(ct *Contract, calleeName string, params []paramInf
 	post.vars = sc.vars
 	post.results = rtv
 	post.resultNames = resultNames(results)
+	ghosts := letNames(ct)
 	for _, en := range ct.Ensures {
-		if mentionsLog(en.E) {
+		if mentionsLog(en.E) || mentionsName(en.E, ghosts) {
+			// clauses about the callee's own call log or its let@ ghost constants mean nothing to a caller: not assumed
 			continue
 		}
 		t, err := post.evalBool(en.E)
@@ -1251,6 +1253,35 @@ func (f *frame) applyContract(ct *Contract, calleeName string, params []paramInf
 		vc.assume(cur, t)
 	}
 	return res
+}
+
+// letNames: the ghost constants a contract introduces with let@.
+func letNames(ct *Contract) map[string]bool {
+	var m map[string]bool
+	for _, a := range ct.Asserts {
+		if a.Kind == "let" {
+			if m == nil {
+				m = map[string]bool{}
+			}
+			m[a.Name] = true
+		}
+	}
+	return m
+}
+
+func mentionsName(e *Expr, names map[string]bool) bool {
+	if e == nil || len(names) == 0 {
+		return false
+	}
+	if e.Op == "id" && names[e.Name] {
+		return true
+	}
+	for _, a := range e.Args {
+		if mentionsName(a, names) {
+			return true
+		}
+	}
+	return false
 }
 
 // mentionsLog reports whether a spec expression refers to the ghost call log.
